@@ -6,8 +6,6 @@ CLAIMED["C29"] = (
  SSA_BASE)
 
 NA["C10"] = "heap-allocator safety is an invariant over run-time heap states of a hand-written WAT program; no clause is visible in code shape (DESIGN.md section 5)"
-NA["C18"] = "arithmetic identity over all offsets with carries; needs a bit-vector solver or enumeration, outside static analysis (DESIGN.md section 5)"
-NA["C19"] = "LEB128 round-trip/minimality/limits are value-level properties of byte loops; needs loop invariants (solver/proof family) (DESIGN.md section 5)"
 NA["C22"] = "Apply(before, diff)==after is a value-level property of a vendored LCS algorithm; no necessary structural clause; a fork-diff would be a brittle proxy (DESIGN.md section 5)"
 NA["C31"] = "differential behaviour of the vendored wazero engine over all modules; no Wa-specific table to cross-check (DESIGN.md section 5)"
 AST_BASE = "trusted: go/types, go/packages (x/tools v0.29.0), Go 1.23.5; the embedded reference tables in the checker (WebAssembly instruction table etc.)"
@@ -111,4 +109,14 @@ CLAIMED["C14"] = (
 CLAIMED["C13"] = (
  "structural lint over the Wa source of the runtime map (parsed with the repository's parser; token-level mirror comparison under the left/right exchange with commutativity and child-slot normalisation; orientation table of comparison arms; payload-field coverage of the successor transfer; entry-point routing) plus an emission-sequence rule on the generated struct comparator",
  "Decides that the fix-up arms and the two rotations of the red-black tree are mirror images, that insert and search descend by the same key order, that deleting a two-child node moves every payload field of the successor and compacts the unlinked node, that the six runtime entry points exist with the back end's arity and forward to the method of their role, and that struct keys are compared field by field. Does not decide the rebalancing algorithm itself or iteration under mutation.",
+ AST_BASE)
+
+CLAIMED["C19"] = (
+ "finite evaluation of the per-iteration decision tree of each LEB128 loop over (byte position, byte value) and boundary representatives; wrapper delegation lint over the type-checked AST",
+ "Decides structural clauses only: for every byte position up to L+3 and all 256 byte values, each decoder's terminating-byte acceptance, length limit and the bits ORed into the value are what the WebAssembly binary format says (shift/count as induction variables in closed form, decoded value abstracted to its sign); one iteration of each encoder emits (v&0x7f)|more<<7, leaves v>>7 and continues exactly outside the 7-bit range on ~81k boundary representatives; exported wrappers delegate with sign-preserving widening. Does not decide the round trip over all 2^32/2^64 values as a whole.",
+ AST_BASE)
+
+CLAIMED["C18"] = (
+ "abstract interpretation of the split functions in a page-form domain (4096·symbolic page + enumerated residue, interval splitting at comparisons); call-site role lint over the type-checked AST",
+ "Decides, for every input (all 4096 in-page residues enumerated, page numbers symbolic, every partition induced by a comparison analysed), that SplitOffset/MakePCRel/MakeAbs return lo in [-2048,2047] with 4096·hi+lo equal to the offset (modulo 2^32), that CombineOffset recombines them, that MakeLa64PCRel returns lo12 = target mod 4096 and hi20 ≡ page(target)-page(pc)+[lo12≥0x800] (mod 2^20), and that the assembler call sites pass (address, pc) and route hi/lo correctly. Integer conversions are taken as exact (LoongArch: within the stated ±2 GiB range). Does not decide the instruction encoders' field placement (C17).",
  AST_BASE)
